@@ -559,7 +559,7 @@ impl Lane {
             Op::Tiny(t) => (
                 raw.clone(),
                 match t {
-                    TinyOp::Ask(_) => Kind::Once,
+                    TinyOp::Ask(_) | TinyOp::AskN(_) => Kind::Once,
                     TinyOp::Watch(_) => Kind::Many,
                     TinyOp::Note(_) => Kind::Never,
                 },
@@ -926,6 +926,8 @@ pub enum Step {
     Ev(usize),
     /// answer (or stream item) for the k-th outstanding request, in issue order
     Resp(usize),
+    /// C09 scale family: the event burst(n) - n one-shot requests at once
+    Burst(u16),
     /// C09: an undecodable answer (or stream item) for the k-th outstanding request, at most
     /// once per history: every bridge must reject it; the twin's request is dropped if it is a
     /// one-shot and left alone if it is a stream
@@ -951,6 +953,7 @@ pub fn show_steps(steps: &[Step]) -> String {
         .map(|s| match s {
             Step::Ev(i) => crate::app::MENU_NAMES[*i].to_string(),
             Step::Resp(k) => format!("answer#{k}"),
+            Step::Burst(n) => format!("Burst({n})"),
             Step::Garbage(k) => format!("undecodable-answer#{k}"),
             Step::BadEvBatch => "<all undecodable events>".to_string(),
             Step::BadEv(b) => format!("event 0x{} ({:?})", hex(b), String::from_utf8_lossy(b)),
@@ -1100,7 +1103,7 @@ impl System {
             Step::Resp(k) | Step::BadResp(k, _) => *k < self.out.len(),
             Step::Garbage(k) => *k < self.out.len() && !self.garbage_used,
             Step::BadNote(j, _) => *j < self.notes.len(),
-            Step::BadEvBatch | Step::BadEv(_) => true,
+            Step::BadEvBatch | Step::BadEv(_) | Step::Burst(_) => true,
         }
     }
 
@@ -1121,6 +1124,11 @@ impl System {
             Step::BadEv(b) => return self.bad_event(b),
             Step::BadResp(k, b) => return self.bad_response(*k, b),
             Step::BadNote(j, b) => return self.bad_note(*j, b),
+            Step::Burst(n) => {
+                for lane in self.lanes.iter_mut() {
+                    outcomes.push(lane.event_typed(crate::app::Event::Burst(*n)));
+                }
+            }
             Step::Ev(i) => {
                 if self.fault.is_some() {
                     self.trail.push_str(&format!("E{i}."));
